@@ -33,6 +33,8 @@ func runC06(c *Ctx) {
 	c06Replay(c)
 	c06QuicParams(c)
 	c06NeedMore(c)
+	c06WindowFixed(c)
+	c06LocatorBounds(c)
 }
 
 func c06Restore(c *Ctx) {
